@@ -231,6 +231,20 @@ func common(sc *Scenario, p params) {
 	sc.FreeLoss = p.int("freeloss", 0)
 }
 
+// lateApps: pre=<d>: the sender's application starts late (the handshake is
+// long over, or a restarted server handshake is completed by its first DATA);
+// rpre=<d>: the receiver's application starts late (more than a window of
+// messages arrives before the first Recv).
+func lateApps(sc *Scenario, p params) {
+	if p.has("pre") {
+		sc.ClientScripts[0] = append([]Op{{Kind: "sleep", D: p.dur("pre", 0)}}, sc.ClientScripts[0]...)
+	}
+	if p.has("rpre") {
+		last := len(sc.ServerScripts) - 1
+		sc.ServerScripts[last] = append([]Op{{Kind: "sleep", D: p.dur("rpre", 0)}}, sc.ServerScripts[last]...)
+	}
+}
+
 func init() {
 	// uni: the client sends k distinct messages, the server receives them.
 	builders["uni"] = func(name string, p params) *Scenario {
@@ -239,6 +253,7 @@ func init() {
 		k := p.int("k", 3)
 		sc.ClientScripts = [][]Op{sends('c', k, p.int("size", -1))}
 		sc.ServerScripts = [][]Op{recvs(k)}
+		lateApps(sc, p)
 		return sc
 	}
 	// bidi: both directions at once, separate sender and receiver threads.
@@ -626,6 +641,7 @@ func init() {
 			sc.ClientScripts = [][]Op{sends('c', k, -1)}
 			sc.ServerScripts = [][]Op{recvs(k)}
 		}
+		lateApps(sc, p)
 		sc.NoCloseAllowed = !p.has("ka")
 		sc.Monitors = append(sc.Monitors, monPrefix, monQuiet)
 		sc.Final = append(sc.Final, finalAllDelivered, finalNoHang, finalQuiet)
